@@ -12,6 +12,27 @@ from engine.report import site_of
 from . import common, builders, phonetic
 
 
+def _const_is_none(prog, e):
+    """e is a named constant of an Option type whose initialiser is `None` (the extractor keeps such constants opaque; the initialiser is read
+    from the constant's own item in the source)."""
+    import os
+    import re as _re
+    from engine import tables as _tables
+    if e.k != "const" or not isinstance(e.a[0], tuple) or e.a[0][0] != "opaque" or len(e.a[0]) < 3:
+        return False
+    if not str(e.a[0][1]).startswith("std::option::Option<"):
+        return False
+    hits = [c for c in prog.consts if c["name"] == e.a[0][2] and c["ty"] == e.a[0][1]]
+    if len(hits) != 1 or not hits[0].get("loc"):
+        return False
+    try:
+        lines = open(os.path.join(_tables.REPO, hits[0]["loc"]["file"]), encoding="utf-8").read().splitlines()
+        item = " ".join(lines[hits[0]["loc"]["line"] - 1:hits[0]["loc"].get("line_hi", hits[0]["loc"]["line"])])
+    except Exception:
+        return False
+    return bool(_re.search(r"=\s*(?:Option::)?None\s*;", item))
+
+
 def run(ctx):
     prog, chk = ctx.prog, ctx.check
     chk.explanation = (
@@ -424,10 +445,17 @@ def run(ctx):
                     if neg_:
                         truth = not truth
                     if d0.k == "discr" and mentions_ts:
-                        why.append(("state" if not truth else "loaded", sbb))           # discriminant 0 = None = nothing loaded
+                        via_try = contains_call(d0, lambda n: n.endswith("Try>::branch")) is not None       # `state?`: Break (1) is None
+                        nothing_ = truth if via_try else (not truth)                                       # plain discriminant: 0 = None = nothing loaded
+                        why.append(("state" if nothing_ else "loaded", sbb))
                     elif d0.k == "call" and mentions_ts and d0.a[0].split("::")[-1] in ("is_some", "is_none"):
                         nothing = (not truth) if d0.a[0].split("::")[-1] == "is_some" else truth
                         why.append(("state" if nothing else "loaded", sbb))
+                    elif d0.k == "call" and mentions_ts and d0.a[0].split("::")[-1] in ("eq", "ne") and \
+                            any((strip_refs(a_).k == "agg" and str(strip_refs(a_).a[0]).endswith("Option::None")) or _const_is_none(prog, strip_refs(a_)) for a_ in d0.a[1]):
+                        # compared with `None` itself (possibly through a named constant): the state test spelled as an equality
+                        is_none_ = truth if d0.a[0].split("::")[-1] == "eq" else (not truth)
+                        why.append(("state" if is_none_ else "loaded", sbb))
                     elif d0.k == "call" and mentions_ts and d0.a[0].split("::")[-1] in ("eq", "ne", "gt", "lt", "ge", "le"):
                         why.append(("sentinel", sbb))
                     elif mentions_map and d0.k == "call" and d0.a[0].split("::")[-1] in ("is_empty", "len"):
@@ -436,6 +464,38 @@ def run(ctx):
                         why.append(("other", sbb))
                 if outcomes and all(outcomes):
                     kept.append((path, why))
+            # changed-file: a file that opened and whose time differs from the remembered one is loaded on every path — also when it does not
+            # parse (a new context takes an unreadable file for an empty one; keeping the old entries instead makes the two differ)
+            unloaded = None
+            for path, env, conds in paths5:
+                on = [bb for (bb, vals) in path]
+                if set(on) & set(ac5):
+                    continue
+                outcomes, differs = [], None
+                for (d, vals, allv, ty, sbb) in conds:
+                    if sbb not in on:
+                        continue
+                    d0 = strip_refs(d)
+                    neg_ = False
+                    while d0.k == "un" and d0.a[0] == "Not":
+                        d0 = strip_refs(d0.a[1])
+                        neg_ = not neg_
+                    if d0.k == "discr" and strip_refs(d0.a[0]).k == "call" and strip_refs(d0.a[0]).a[0].endswith("File::open"):
+                        outcomes.append(vals == (1,) or (vals == "otherwise" and 1 not in allv and 0 in allv))
+                        continue
+                    if d0.k == "call" and d0.a[0].split("::")[-1] in ("ne", "eq") and any(self_path(x) == (ts,) for a_ in d0.a[1] for x in a_.walk()):
+                        truth = (vals != (0,)) if vals != "otherwise" else (0 in allv)
+                        if neg_:
+                            truth = not truth
+                        differs = truth if d0.a[0].split("::")[-1] == "ne" else (not truth)
+                        differs_bb = sbb
+                if outcomes and not any(outcomes) and differs is True:
+                    unloaded = unloaded or (path, differs_bb)
+            if unloaded is not None:
+                r5.violation("changed-file", "a path of update-engine finds the file changed (it opens, its modification time differs) and yet keeps the old entries — "
+                             "e.g. when the new content does not parse; a newly created context would have none of them", site_of(ub, unloaded[1]))
+            elif paths5:
+                r5.ok("changed-file", "a file that opens with a different modification time replaces the map on every path")
             if kept:
                 sent = [w for (_, why) in kept for w in why if w[0] == "sentinel" and not any(x[0] == "state" for x in why)]
                 unexplained = [pth for (pth, why) in kept if not [w for w in why if w[0] != "loaded"]]
@@ -462,4 +522,4 @@ def run(ctx):
             else:
                 r5.violation("removed-file", "when the user auto-correct file cannot be opened update-engine keeps the old entries; a newly created context has none",
                              site_of(ub, opens[0]))
-    r5.floor(3, "gate-compare, removed-state, removed-file")
+    r5.floor(4, "gate-compare, changed-file, removed-state, removed-file")
